@@ -115,7 +115,14 @@ fn valid_block1(r: &HostileReq) -> Option<Block> {
 }
 
 pub fn check_seq(_ctx: &Ctx, s: &Seq, acc: &mut Acc) -> Result<(), Fail> {
-    let mut handler: BlockHandler<u8> = new_handler(s.budget, HOUR);
+    // budget 1152 is the crate's default: take it from Default when it is
+    let dflt = coap_lite::BlockHandlerConfig::default();
+    let mut handler: BlockHandler<u8> = if dflt.max_total_message_size == s.budget {
+        acc.class("handler-from-default-config");
+        BlockHandler::new(dflt)
+    } else {
+        new_handler(s.budget, HOUR)
+    };
     let mut nontrivial = false;
     for (i, (hr, reply)) in s.steps.iter().enumerate() {
         let spec = hr.spec(10 + i as u16);
@@ -417,10 +424,12 @@ pub fn run(ctx: &Ctx, rep: &mut Report) {
                 if num < 0 {
                     continue;
                 }
-                for more in [true, false] {
+                // (an empty payload lands exactly on the block boundary: the
+                // jump itself is what is measured then)
+                for (more, payload_len) in [(true, 9u16), (false, 9), (true, 0), (false, 0), (true, 1), (true, 15)] {
                     let mut st = steps.clone();
                     st.push((
-                        HostileReq { endpoint: 0, mtype: 0, token_len: 0, code: 3, path: vec![b"r".to_vec()], bloat: vec![], block1: Some(RawBlock::Valid { num: num as u32, more, szx }), block2: None, payload_len: 9 },
+                        HostileReq { endpoint: 0, mtype: 0, token_len: 0, code: 3, path: vec![b"r".to_vec()], bloat: vec![], block1: Some(RawBlock::Valid { num: num as u32, more, szx }), block2: None, payload_len },
                         HostileReply { present: true, code: 0x44, body_len: 0, bloat: vec![], preset_block2: None },
                     ));
                     cases.push(Seq { budget: 1280, steps: st });
